@@ -750,6 +750,7 @@ func (in *Interp) initExterns() {
 			}
 		}
 		v := in.newInput("xxhash", 64, "uint64")
+		in.res.UsesUninterp = true
 		in.xxMemo = append(in.xxMemo, xxEntry{append([]*Term(nil), b...), v})
 		return v
 	}
